@@ -14,10 +14,10 @@ import qgen
 from cprop import CompilerProp
 
 ID = "C04"
-LEAN_MODULES = ["FaxVerif.C04.Theorems"]
+LEAN_MODULES = ["FaxVerif.C04.Theorems", "FaxVerif.C04.TheoremsLazy"]
 LEAN_SOURCES = ["FaxVerif/C04", "FaxVerif/Gen", "FaxVerif/Cpp", "FaxVerif/Linq"]
 DRIVER = cgroup.DRIVER
-SETUP_MODULES = cgroup.DRIVER_IMPORTS  # what the driver imports
+SETUP_MODULES = cgroup.DRIVER_IMPORTS + ["FaxVerif.Gen.Lazy"]  # what the drivers import
 THEOREMS = [
     "FaxVerif.C04.first_idiom",
     "FaxVerif.C04.and_lazy",
@@ -36,12 +36,21 @@ THEOREMS = [
     "FaxVerif.C04.event_first_empty_loud",
     "FaxVerif.C04.guarded_first_safe",
     "FaxVerif.C04.guarded_package_correct",
+    "FaxVerif.C04.lazy_expr_faults_equal",
+    "FaxVerif.C04.lazy_expr_faults_equal_null",
+    "FaxVerif.C04.bop_guard_protects",
+    "FaxVerif.C04.and_guard_protects",
+    "FaxVerif.C04.or_guard_protects",
+    "FaxVerif.C04.untaken_arm_protected",
+    "FaxVerif.C04.fused_where_lazy",
 ]
 RULE = (
     "type-directed random queries that contain at least one of First / and / or / if-else / nested Where (rejection sampling over "
     "the C01 generator), 5 events each with empty collections over-weighted (45%); three backends; outcome per event compared as "
     "rows-by-value or fault class {loud, retrieveFailed, nullDeref, stuck}. Non-trivial: >=2 distinct operators and >=1 event with "
-    "a row; the evidence also counts events on which the query itself faults."
+    "a row; the evidence also counts events on which the query itself faults. Stream 'lazy-tie': random element-level rows whose "
+    "columns / Where conditions nest n-ary and / or / if-else, model (Gen.compileL) text vs implementation text on three backends and "
+    "the model's package executed on events with null elements and missing accessors against denote."
 )
 TRUSTED_BASE = [
     "C++ semantics (throw = loud fault, .at() bounds-checked, if/else and nested-if control flow) and Python semantics (First of empty raises, and/or/if-else lazy) as written in lean/FaxVerif/Cpp/Sem.lean and lean/FaxVerif/Linq/Query.lean",
@@ -60,7 +69,11 @@ LEVEL_TEXT = (
     "evaluates them (or_lazy, and_lazy2, ite_lazy; n-ary chains: or_step / and_step). The guard idiom `d if c.Count() == 0 "
     "else c.First()` is proved safe END TO END for the translator model: it never throws and yields the first kept element "
     "or the default, from any state, for every chain / event / number model (guarded_first_safe), and the whole package "
-    "writes exactly that one row (guarded_package_correct) — its text is compared with the real translator's on every run. The real translator is shown to emit the First / fused-Where shapes by C01's "
+    "writes exactly that one row (guarded_package_correct). For the translator MODEL of lazy operators (Gen.compLE: n-ary and / or and "
+    "if-else inside element-level expressions, arbitrarily nested, tied to the real translator's text on every run) the compiled "
+    "statements fault iff the query expression faults — no spurious fault, none swallowed (lazy_expr_faults_equal) — and an operand "
+    "behind a deciding `and` / `or` or in the untaken arm is never executed, whatever it is (and_guard_protects, or_guard_protects, "
+    "untaken_arm_protected, bop_guard_protects, fused_where_lazy) — its text is compared with the real translator's on every run. The real translator is shown to emit the First / fused-Where shapes by C01's "
     "text tie, and the lazy-operator shapes by a recogniser (C04/Shapes.lean `countShapes`) run on the implementation's output "
     "for every generated query (at least one recognised shape per and/or/if-else node of the query); the fault behaviour of the "
     "implementation's own output is compared with the query's on generated events (differential)."
@@ -232,6 +245,9 @@ def guarded_tie(ctx, n):
 class _C04(CompilerProp):
     def run(self, ctx):
         guarded_tie(ctx, 40 if ctx.tier == "quick" else 400)
+        from props.c01 import lazy_tie_stream
+
+        lazy_tie_stream(ctx, 90 if ctx.tier == "quick" else 900)
         self.stream(ctx, neg_index_cases(ctx), "negative-index(too short)")
         super().run(ctx)
 
